@@ -4,6 +4,7 @@ import (
 	"fmt"
 	"path/filepath"
 	"sort"
+	"strings"
 
 	"verifsim/core"
 )
@@ -30,7 +31,8 @@ func differential(b *builder, def *checkDef, results []*itemResult, outRoot stri
 		fp := readFP(r.fplists)
 		var idx []uint64
 		for i, f := range fp {
-			if o, ok := refFP[i]; ok && o != f {
+			// the "!" suffix marks runs that reported a violation of their own; only the digests are compared
+			if o, ok := refFP[i]; ok && strings.TrimSuffix(o, "!") != strings.TrimSuffix(f, "!") {
 				idx = append(idx, i)
 			}
 		}
